@@ -34,4 +34,30 @@ def isInterface : Decl → Bool | .interface _ => true | _ => false
 def isEnum : Decl → Bool | .enum _ => true | _ => false
 def isExtern : Decl → Bool | .extern _ => true | _ => false
 
+/-- the `ast_typehint` argument of `FindResult.has_one_instance` / `get_single_instance`:
+    absent, one of the seven valid classes (by its kind name), or some other class -/
+inductive Hint | absent | kind (k : String) | invalid
+  deriving Repr, Inhabited, DecidableEq
+
+/-- `FindResult.has_one_instance(ast_typehint)` -/
+def hasOne (items : List Decl) (h : Hint) : R Bool :=
+  match items with
+  | [d] =>
+    match h with
+    | .absent => .ok true
+    | .invalid => .error (.lib .FindError)
+    | .kind k => .ok (d.kind == k)
+  | _ => .ok false
+
+/-- `FindResult.get_single_instance(ast_typehint)` for every hint -/
+def getSingleH (items : List Decl) (h : Hint) : R Decl :=
+  match items with
+  | [] => .error (.lib .FindError)
+  | [d] =>
+    match h with
+    | .absent => .ok d
+    | .invalid => .error (.lib .FindError)
+    | .kind k => if d.kind == k then .ok d else .error (.lib .FindError)
+  | _ => .error (.lib .FindError)
+
 end AstView
